@@ -5,10 +5,12 @@ package main
 import (
 	"errors"
 	"fmt"
+	"io"
 	"net"
 	"net/http"
 	"os"
 	"os/exec"
+	"strings"
 	"sync"
 	"syscall"
 	"time"
@@ -71,6 +73,69 @@ func (s *server) pickPorts() error {
 func (s *server) httpAddr() string { return fmt.Sprintf("127.0.0.1:%d", s.ports[0]) }
 func (s *server) grpcAddr() string { return fmt.Sprintf("127.0.0.1:%d", s.ports[1]) }
 func (s *server) pollAddr() string { return fmt.Sprintf("127.0.0.1:%d", s.ports[2]) }
+
+// startChecked starts the server and, when it ends at once because a port that was free when it was picked has been
+// taken by another process meanwhile (machinery: three runs share this machine), picks new ports and starts it again.
+func (s *server) startChecked() error {
+	for attempt := 0; ; attempt++ {
+		var off int64
+		if fi, err := os.Stat(s.logPath); err == nil {
+			off = fi.Size()
+		}
+		if err := s.start(); err != nil {
+			return err
+		}
+		_, done := s.current()
+		select {
+		case <-done:
+			if attempt < 3 && s.bindFailed(off) {
+				if err := s.pickPorts(); err != nil {
+					return err
+				}
+				continue
+			}
+			return nil
+		case <-time.After(250 * time.Millisecond):
+			return nil
+		}
+	}
+}
+
+// allListening: the gRPC and poll listeners are up too (they are bound after the HTTP one; a port lost to another
+// process ends the server only then)
+func (s *server) allListening(d time.Duration) bool {
+	deadline := time.Now().Add(d)
+	for _, addr := range []string{s.grpcAddr(), s.pollAddr()} {
+		for {
+			if !s.running() {
+				return false
+			}
+			c, err := net.DialTimeout("tcp", addr, time.Second)
+			if err == nil {
+				c.Close()
+				break
+			}
+			if time.Now().After(deadline) {
+				return true // mute, not dead: the steps will show it
+			}
+			time.Sleep(20 * time.Millisecond)
+		}
+	}
+	return true
+}
+
+func (s *server) bindFailed(off int64) bool {
+	f, err := os.Open(s.logPath)
+	if err != nil {
+		return false
+	}
+	defer f.Close()
+	if _, err := f.Seek(off, 0); err != nil {
+		return false
+	}
+	b, _ := io.ReadAll(f)
+	return strings.Contains(string(b), "address already in use")
+}
 
 func (s *server) start() error {
 	s.mu.Lock()
